@@ -13,6 +13,7 @@ RULE = (
     "K_k eps(g) S + 1e-6 S for adequate grids (eps <= 1e-2), K_0=5, K_1=K_2=300; (ii) a drop of eps by >= 10 must not make the error worse (factor 2); the floor "
     "of (i),(ii) includes 5x the code's own contracted quadrature-error estimate; (iii) SV keys of the two finest grids agree within K max(eps) S; (iv) x on a node vs x(1+-1e-9): predictions "
     "within 3e-6/3e-6/5e-5 S by order; (vi) the finest grid and a twin of equal size/end points/degree but other interior nodes agree within K (eps+eps') S for every key; (v) with TMC 1/3 at x in [0.8,0.95] successive grids agree within K (eps_i+eps_j) S; node tolerances plus 5x the code's own contracted quadrature-error estimate. Distinct = (kind, process, scheme, order, x class, relation); non-trivial = truth non-zero and at least two adequate grids."
+    " A grid of the family that raises after the first grid of the family was computed in the same process is a violation (refinement-raises); a request that fails on the first grid already is inconclusive."
 )
 ASSUMPTIONS = ["'adequate grid' is operationalised as measured interpolation error <= 1e-2; coarser grids are not judged",
                "K factors calibrated on the pinned tree (loose by design: the sharp entrywise statement about the same code is C01)"]  # fmt: skip
@@ -158,7 +159,14 @@ def run_case(case):
             xg = cards.grid(gs["n_low"], gs["n_mid"], x_min=min(1e-4, x / 5), kind=gs["kind"])
             # put x exactly on a node of the finest grid for the continuity relation
             ob = cards.observables({name: [dict(x=x, Q2=Q2)]}, xgrid=xg, deg=gs["deg"], prDIS=case["proc"], ProjectileDIS=case["proj"], is_log=case.get("is_log", True))
-            out = yad.run_yadism(th, ob)
+            try:
+                out = yad.run_yadism(th, ob)
+            except Exception as e:  # noqa: BLE001
+                if gi == 0:
+                    raise
+                # the same request on another (finer) grid of the family, after the first grid was served: there is nothing to converge
+                return dict(violations=[dict(sig=f"refinement-raises|{run.exc_sig(e)}", what=f"{name} ({case['proc']}, {case['scheme']}, PTO={case['pto']}) at x={x:.6g} Q2={Q2:.6g}: grid {gi + 1} of the family ({len(xg)} nodes, degree {gs['deg']}) raised {type(e).__name__}: {str(e)[:160]} after grid 1 had been computed in the same process")],
+                            compared=1, classes=["refinement-raises"], probes=probes)
             interp = run.interpolator(ob)
             fmat = np.array([[pdf.f(pid, xj) for xj in xg] for pid in cards.PIDS])
             res = out[name][0]
